@@ -1,10 +1,14 @@
 import PpciVerif.Proofs.RelocRv2
+import PpciVerif.Proofs.Relax
 import PpciVerif.Spec.RV32
-import PpciVerif.Model.Relax
+import PpciVerif.Model.RelaxLink
 import Mathlib.Tactic.NormNum
-/-! Lemmas for C13, part 3: the instruction that `do_shrink` + the `bc_imm11` relocation produce, read with
-the independent decoder `Spec.RV32.decodeC`, and the unrelaxed `jal` read with `Spec.RV32.decode`. -/
+/-! Lemmas for C13 on top of the C10/C11 relocation proofs (one module, see `Proofs.Relax`): the instruction that
+`do_shrink` + the `bc_imm11` relocation produce, read with the independent decoder `Spec.RV32.decodeC`, the
+unrelaxed `jal` read with `Spec.RV32.decode`, and one step of `do_relocations` on a shrunk site. -/
 namespace Proofs.Relax
+
+section RelaxInsnPart
 open Model.Token Model.Reloc Proofs.Token Proofs.Reloc Spec.RelocSem
 open Model.Relax (Shrink patch)
 
@@ -165,5 +169,74 @@ theorem unrelaxed_decodes {data out : List Nat} {S P : Int} (hlen : data.length 
   unfold Spec.RV32.decode
   simp [e1, e2]
   omega
+
+end RelaxInsnPart
+
+section RelaxLinkPart
+open Model.Linker Proofs.Linker Proofs.Reloc
+open Model.Relax hiding Hole
+open Model.RelaxLink
+
+theorem splice_site {data new : List Nat} {off : Nat} (h : off + new.length ≤ data.length) :
+    ((splice data off new).drop off).take new.length = new := by
+  unfold splice
+  have hl : (data.take off).length = off := by simp only [List.length_take]; omega
+  rw [List.append_assoc, List.drop_append_of_le_length (by omega), List.drop_of_length_le (by omega)]
+  simp
+
+/-- `_do_relocation` of a `bc_imm11` entry on a site that holds the two bytes `do_shrink` kept of a `jal`:
+    afterwards the site holds, for the independent RV32C decoder, `c.j` / `c.jal` to the symbol's address -/
+theorem doRelocation_shrunk_site {o o2 : Obj} {r : Reloc} {sec : Section} {k : Shrink} {data : List Nat} {S : Nat}
+    (h : doRelocation o r = .ok o2) (hty : r.typ = "bc_imm11")
+    (hsec : getSec o.sections r.sect = some sec)
+    (hS : getSymbolIdValue o r.symbolId = .ok S)
+    (hlen : data.length = 4) (hb : Bytes data)
+    (hsite : (sec.data.drop r.offset).take 2 = patch k data)
+    (hfit : Spec.Bits.fitsS 12 ((S : Int) - ((sec.address + r.offset : Nat) : Int))) :
+    ∃ sec2 off, getSec o2.sections r.sect = some sec2 ∧ sec2.address = sec.address ∧
+      Spec.RV32.decodeC (Spec.RelocSem.wordLE ((sec2.data.drop r.offset).take 2)) = some (cinstr k off) ∧
+      ((sec.address + r.offset : Nat) : Int) + off = S := by
+  unfold doRelocation at h
+  obtain ⟨S', hS', h⟩ := bind_ok h
+  have : S' = S := by
+    unfold liftL at hS'
+    rw [hS] at hS'
+    cases hS'; rfl
+  subst this
+  rw [hsec] at h
+  simp only at h
+  have hinfo : relocInfo r.typ = some ⟨2, none⟩ := by rw [hty]; decide
+  rw [hinfo] at h
+  obtain ⟨_, a1, h⟩ := bind_ok h
+  rw [hsite] at h
+  have happ : Model.Reloc.apply "riscv" r.typ r.addend (S' : Int) (patch k data) ((sec.address + r.offset : Nat) : Int)
+      = some (Model.Reloc.Rvc.bcImm11 (S' : Int) (patch k data) ((sec.address + r.offset : Nat) : Int)) := by
+    rw [hty]; rfl
+  rw [happ] at h
+  simp only at h
+  cases hout : Model.Reloc.Rvc.bcImm11 (S' : Int) (patch k data) ((sec.address + r.offset : Nat) : Int) with
+  | error e => rw [hout] at h; cases h
+  | ok out =>
+    rw [hout] at h
+    simp only at h
+    obtain ⟨_, a2, h⟩ := bind_ok h
+    cases h
+    obtain ⟨l2, off, hdec, htgt⟩ := shrunk_decodes k hlen hb hout hfit
+    have hoff : r.offset + 2 ≤ sec.data.length := by
+      have := congrArg List.length hsite
+      rw [patch_length k data hlen] at this
+      simp only [List.length_take, List.length_drop] at this
+      omega
+    refine ⟨{ sec with data := splice sec.data r.offset out }, off, ?_, rfl, ?_, htgt⟩
+    · show getSec (updSec o.sections r.sect _) r.sect = _
+      rw [getSec_updSec_same o.sections r.sect (fun s => { s with data := splice s.data r.offset out }) (fun s => rfl), hsec]
+      rfl
+    · simp only
+      have := splice_site (data := sec.data) (new := out) (off := r.offset) (by rw [l2]; exact hoff)
+      rw [l2] at this
+      rw [this]
+      exact hdec
+
+end RelaxLinkPart
 
 end Proofs.Relax
